@@ -42,6 +42,8 @@
 #include <glm/gtx/matrix_interpolation.hpp>
 #include <glm/gtx/rotate_vector.hpp>
 #include <glm/gtx/transform.hpp>
+#include <glm/gtx/compatibility.hpp>
+#include <glm/gtx/common.hpp>
 #include <glm/gtc/ulp.hpp>
 #include <glm/ext/vector_integer.hpp>
 #include <glm/ext/matrix_relational.hpp>
@@ -170,7 +172,11 @@ OPC(vector_templates){ I4 x(in.i[0]>>3,in.i[1]>>3,in.i[2]>>3,in.i[3]>>3); I4 m((
 	E(glm::next_float(fx)); E(glm::prev_float(fx)); E(glm::next_float(fx,I4(1,2,3,0))); E(glm::nextFloat(fx,2)); E(glm::prevFloat(fx,I4(0,1,2,3))); E(glm::float_distance(fx,fx+V4(K(1.0f)))); E(glm::epsilonEqual(fx,fx+V4(K(0.001f)),K(0.01f))); E(glm::epsilonNotEqual(fx,fx*K(1.5f),V4(K(0.01f)))); E(glm::equal(fx,fx+V4(K(0.5f)),V4(K(0.6f),K(0.4f),K(0.5f),K(1.0f)))); E(glm::notEqual(fx,fx,I4(1))); E(glm::equal(m4(in.f),m4(in.f+0),V4(K(0.1f)))); E(glm::notEqual(m3(in.f),m3(in.f+1),V3(K(0.5f))));
 	E(glm::rotateX(V3(fx.x,fx.y,fx.z),fx.w)); E(glm::rotate(V2(fx.x,fx.y),fx.z)); E(glm::rotate(fx.w,glm::normalize(V3(fx.x,fx.y,fx.z)+V3(K(0.0f),K(0.0f),K(3.0f))))); E(glm::fmin(fx,fm,V4(K(0.5f)))+V4(0.0f)); E(glm::fclamp(fx,V4(K(-1.0f)),fm)+V4(0.0f)); E(glm::mirrorClamp(fx)); E(glm::clamp(fx)); }
 
-static std::vector<vf::Op*> table(){ return { &fn_round,&fn_trunc,&fn_floor_ceil,&fn_fract,&fn_roundEven,&fn_sign_abs,&fn_isnan,&fn_isinf,&fn_log2,&fn_exp2,&fn_exp_log,&fn_pow_sqrt,&fn_asinh,&fn_acosh,&fn_atanh,&fn_trig,&fn_trig_inverse,&fn_reciprocal_trig,&fn_fmin_fmax,&fn_fma,&fn_frexp_ldexp_modf,&fn_mix_step_clamp_mod,&fn_nextFloat_prevFloat,&fn_gtc_next_prev_double,&relational,&integer,&integer_ext,&vec_operators,&vec_common,&vec_geometric,&matrix,&transform,&quaternion,&packing,&constructors,&decompose,&gtx_quaternion,&vector_templates }; }
+// gtx classification helpers with pre-C++11 fallbacks (gtx/compatibility isfinite, gtx/common isdenormal/fmod): every lattice value incl. +-max, +-min, subnormals
+OPC(gtx_classify){ for(int k=0;k<8;k++){ E(glm::isfinite(in.f[k])); E(glm::isdenormal(in.f[k])); } for(int k=0;k<4;k++){ E(glm::isfinite(in.d[k])); E(glm::isdenormal(in.d[k])); }
+	E(glm::isfinite(v4(in.f+8))); E(glm::isdenormal(v4(in.f+8))); E(glm::isfinite(v3(in.f+12))); E(glm::isfinite(v2(in.f+4))); E(glm::isdenormal(v2(in.f+6))); E(glm::isfinite(D3(in.d[0],in.d[1],in.d[2])));
+	{ V4 a=glm::clamp(glm::mix(v4(in.f),V4(K(1.0f)),glm::isnan(v4(in.f))),V4(K(-1e6f)),V4(K(1e6f))); float m=pos(in.f[4]); if(m>1e-3f&&m<1e3f){ E(glm::fmod(a,m)); E(glm::fmod(a.x,m)); } } }
+static std::vector<vf::Op*> table(){ return { &gtx_classify,&fn_round,&fn_trunc,&fn_floor_ceil,&fn_fract,&fn_roundEven,&fn_sign_abs,&fn_isnan,&fn_isinf,&fn_log2,&fn_exp2,&fn_exp_log,&fn_pow_sqrt,&fn_asinh,&fn_acosh,&fn_atanh,&fn_trig,&fn_trig_inverse,&fn_reciprocal_trig,&fn_fmin_fmax,&fn_fma,&fn_frexp_ldexp_modf,&fn_mix_step_clamp_mod,&fn_nextFloat_prevFloat,&fn_gtc_next_prev_double,&relational,&integer,&integer_ext,&vec_operators,&vec_common,&vec_geometric,&matrix,&transform,&quaternion,&packing,&constructors,&decompose,&gtx_quaternion,&vector_templates }; }
 
 #else // C15_PART==2: floating-point vector overloads of gtc/round, kept in their own translation unit (a configuration under which
       // they stop compiling must not take the rest of the table with it)
